@@ -258,6 +258,16 @@ def getattr(I, st, v, name):
     if isinstance(v, BoundMethod) and name == "__name__":
         yield st, v.func.name
         return
+    if isinstance(v, Builtin) and v.name == "itertools.chain" and name == "from_iterable":
+        # itertools.chain.from_iterable(it): the elements of each element of `it`, in order (evaluated eagerly)
+        def _from_iterable(I, st, a, k):
+            out = []
+            for x in I.iterate(a[0], st):
+                out.extend(I.iterate(x, st))
+            yield st, st.alloc(ListE(out))
+
+        yield st, bi("itertools.chain.from_iterable", _from_iterable)
+        return
     if is_boollike(v) and name == "__bool__":
         yield st, simple("bool.__bool__", lambda I, st: v)
         return
